@@ -118,6 +118,11 @@ fn pat_hex(p: &[u32]) -> String {
     p.iter().map(|c| format!("{:x}", c)).collect::<Vec<_>>().join(",")
 }
 
+fn announce() -> bool {
+    static A: std::sync::OnceLock<bool> = std::sync::OnceLock::new();
+    *A.get_or_init(|| std::env::var("RV_ANNOUNCE").is_ok())
+}
+
 /// Emit one case: program (opt or no_opt), then H/R records for the haystacks.
 fn emit_case(out: &mut String, id: &str, p: &[u32], f: &str, no_opt: bool, hays: &[(String, bool)], budget: u64, all_starts: bool) -> bool {
     let (cr, ir0, ir1) = match panic::catch_unwind(|| compile_stages(p, f, no_opt)) {
@@ -150,6 +155,10 @@ fn emit_case(out: &mut String, id: &str, p: &[u32], f: &str, no_opt: bool, hays:
             writeln!(out, "H {} {}", hex(t.as_bytes()), s).unwrap();
             let engines: &[Engine] = if *ascii_only { &[Engine::Bt8, Engine::Pk8, Engine::BtA, Engine::PkA] } else { &[Engine::Bt8, Engine::Pk8] };
             for &e in engines {
+                if announce() {
+                    // unbuffered: if the process dies in this run, the last line names the input
+                    eprintln!("A {} {} {} {} {} {}", pat_hex(p), if f.is_empty() { "-" } else { f }, no_opt as u8, hex(t.as_bytes()), s, e.name());
+                }
                 let (st, steps, ms) = run_engine(&re, e, t, s, budget);
                 writeln!(out, "R {} {} {} {}", e.name(), st, steps, matches_tokens(&ms)).unwrap();
             }
